@@ -97,7 +97,7 @@ func init() {
 const c16WordsPerCase = 20
 
 func (p *c16) NumCases(tier string) int {
-	return (len(refmodel.ReservedWords)+c16WordsPerCase-1)/c16WordsPerCase + 1 + 8 + 1 + 2 + 2
+	return (len(refmodel.ReservedWords)+c16WordsPerCase-1)/c16WordsPerCase + 1 + 8 + 1 + 2 + 2 + 2
 }
 
 func evalExpr(expr string, update bool, names map[string]string, values val.Item, item val.Item) (string, string, string) {
@@ -600,6 +600,93 @@ func (p *c16) batchRules(x *res, ctx *runner.Ctx) {
 	}
 }
 
+// projections: a ProjectionExpression is an expression too. All 573 reserved words at every bare-name position of
+// a projection (alone, first / middle / last of a list, head of a dotted or indexed path) on GetItem, Query and
+// Scan must be rejected, the same positions through '#alias -> reserved word' and with non-reserved names must be
+// accepted; strings that are no list of document paths are rejected, well-formed lists are accepted.
+func (p *c16) projections(x *res, adapter string, ctx *runner.Ctx) {
+	spec := mon.SpecHashOnly("tbl16p")
+	cl, _, ds := freshClient(adapter, spec)
+	if ds != nil {
+		x.viol("setup", "create", ds[0].Detail, spec)
+		return
+	}
+	cl.Do(adapt.Op{Kind: adapt.OpPut, Table: spec.Name, Item: val.Item{"h": val.Str("k"), "a": val.Str("x"), "l": val.List(val.Str("x")), "m": val.Map(map[string]val.V{"x": val.Str("y")})}})
+	positions := []struct {
+		name string
+		mk   func(w string) string
+	}{{"alone", func(w string) string { return w }}, {"first", func(w string) string { return w + ", a" }}, {"middle", func(w string) string { return "a, " + w + ", l" }},
+		{"last", func(w string) string { return "a," + w }}, {"path-head-dot", func(w string) string { return "a, " + w + ".x" }}, {"path-head-index", func(w string) string { return w + "[0], a" }}}
+	do := func(kind int, proj string, names map[string]string) adapt.Outcome {
+		switch kind % 3 {
+		case 0:
+			return cl.Do(adapt.Op{Kind: adapt.OpGet, Table: spec.Name, Key: val.Item{"h": val.Str("k")}, Proj: proj, Names: names})
+		case 1:
+			return cl.Do(adapt.Op{Kind: adapt.OpScan, Table: spec.Name, Proj: proj, Names: names})
+		}
+		return cl.Do(adapt.Op{Kind: adapt.OpQuery, Table: spec.Name, KeyCnd: "h = :h", Values: val.Item{":h": val.Str("k")}, Proj: proj, Names: names})
+	}
+	opName := []string{"get", "scan", "query"}
+	for wi, w := range refmodel.ReservedWords {
+		variants := []string{w, strings.ToLower(w), w[:1] + strings.ToLower(w[1:])}
+		for pi, pos := range positions {
+			wv := variants[(wi+pi)%3]
+			proj := pos.mk(wv)
+			got := do(wi+pi, proj, nil)
+			x.r.Evals++
+			x.fp(true, "R1p|%s|%s|%s", adapter, pos.name, w)
+			wit := map[string]interface{}{"adapter": adapter, "operation": opName[(wi+pi)%3], "projection": proj, "outcome": got}
+			if got.Class == adapt.ClsRuntime {
+				x.viol("runtime-panic", got.Site, fmt.Sprintf("[%s] ProjectionExpression %q panics at %s: %s", adapter, proj, got.Site, got.Msg), wit)
+			} else if got.Class == adapt.ClsOK {
+				x.viol("reserved-word-accepted", "projection/"+pos.name, fmt.Sprintf("[%s] reserved word %q used as a bare attribute name in the ProjectionExpression %q of %s is accepted", adapter, wv, proj, opName[(wi+pi)%3]), wit)
+			}
+			if pi == wi%len(positions) {
+				aproj := pos.mk("#w")
+				if g2 := do(wi+pi, aproj, map[string]string{"#w": wv}); g2.Class != adapt.ClsOK {
+					x.viol("aliased-reserved-word-rejected", "projection/"+pos.name, fmt.Sprintf("[%s] '#w' -> %q in the ProjectionExpression %q is rejected (%s %s) although the restriction does not apply to aliases", adapter, wv, aproj, g2.Class, g2.Msg), wit)
+				}
+				x.r.Evals++
+			}
+		}
+	}
+	for ni, n := range c16NonReserved {
+		pos := positions[ni%len(positions)]
+		proj := pos.mk(n)
+		if got := do(ni, proj, nil); got.Class != adapt.ClsOK {
+			x.viol("non-reserved-name-rejected", "projection/"+pos.name, fmt.Sprintf("[%s] non-reserved name %q in the ProjectionExpression %q is rejected: %s %s", adapter, n, proj, got.Class, got.Msg), map[string]interface{}{"adapter": adapter, "projection": proj, "outcome": got})
+		}
+		x.r.Evals++
+	}
+	wellFormed := []string{"a", "a, l", "a.x, l[0]", "m.x", "l[0]", "l[0][1].x.y[2]", "  a ,\n\tl ", "a,l,m", "#p", "#p.#q, #p[1].#q", "a1b2, _under, X"}
+	malformed := []string{"a,, l", "a l", ", a", "a,", "a.", "a[", "a[0", "a[x]", "a[]", "a[0]]", ":v", "a, :v", "a.:v", "a.1", "1", "a..x", "a.[0]", "(a)", "a = l", "a, size(l)", "a AND l", "#", "a#b", "a:b", "a, #", "a;l", "*"}
+	names := map[string]string{"#p": "m", "#q": "x"}
+	for i, proj := range append(append([]string{}, wellFormed...), malformed...) {
+		var nm map[string]string
+		for k, v := range names {
+			if strings.Contains(proj, k) {
+				if nm == nil {
+					nm = map[string]string{}
+				}
+				nm[k] = v // only the placeholders the expression uses: an unused one is refused on its own account
+			}
+		}
+		proj = strings.NewReplacer("\\n", "\n", "\\t", "\t").Replace(proj)
+		got := do(i, proj, nm)
+		x.r.Evals++
+		x.fp(true, "R1p|%s|form|%d", adapter, i)
+		wit := map[string]interface{}{"adapter": adapter, "operation": opName[i%3], "projection": proj, "outcome": got}
+		switch {
+		case got.Class == adapt.ClsRuntime:
+			x.viol("runtime-panic", got.Site, fmt.Sprintf("[%s] ProjectionExpression %q panics at %s: %s", adapter, proj, got.Site, got.Msg), wit)
+		case i < len(wellFormed) && got.Class != adapt.ClsOK:
+			x.viol("well-formed-projection-rejected", opName[i%3], fmt.Sprintf("[%s] the ProjectionExpression %q is a list of document paths but is rejected: %s %s", adapter, proj, got.Class, got.Msg), wit)
+		case i >= len(wellFormed) && got.Class == adapt.ClsOK:
+			x.viol("malformed-projection-accepted", opName[i%3], fmt.Sprintf("[%s] the ProjectionExpression %q is no list of document paths but %s accepts it", adapter, proj, opName[i%3]), wit)
+		}
+	}
+}
+
 func (p *c16) RunCase(ctx *runner.Ctx) runner.CaseResult {
 	x := newRes()
 	nw := (len(refmodel.ReservedWords) + c16WordsPerCase - 1) / c16WordsPerCase
@@ -625,8 +712,10 @@ func (p *c16) RunCase(ctx *runner.Ctx) runner.CaseResult {
 		p.keyConditions(x, ctx)
 	case c == nw+12:
 		p.batchRules(x, ctx)
-	default:
+	case c == nw+13:
 		p.requestReuse(x, ctx)
+	default:
+		p.projections(x, adapt.Adapters[(c-nw-14)%2], ctx)
 	}
 	return x.r
 }
